@@ -413,7 +413,14 @@ pub fn run_dynamic(j: &Joined, c: &Case, seed: u64, cap: u64, which: Which, acc:
         if which == Which::C03 {
             match &ev.kind {
                 Kind::Call { .. } => pending_calls.push(idx),
-                Kind::Ret { .. } => {
+                Kind::Ret { matched } => {
+                    // (a return that does not go back behind its call - the saved return address was overwritten
+                    // through a wild stack pointer - is an indirect jump to anywhere: outside the programs C03
+                    // quantifies over; the rest of this execution is not judged)
+                    if !*matched {
+                        stats.contributed = false;
+                        break;
+                    }
                     if let (Some(call_idx), Some(next)) = (pending_calls.pop(), ev.next) {
                         check_edge(j, c, call_idx, next, "return-from-call", acc, &mut stats, &mut reported, seed);
                     }
